@@ -50,17 +50,23 @@ class FakeBinaryTherm:
 
     def getDrivingForce(self, x, T, precPhase=None, removeCache=False, training=False):
         self.log.append(("getDrivingForce", float(np.atleast_1d(T)[0])))
-        x = np.atleast_1d(np.asarray(x, dtype=float))
-        T = np.atleast_1d(np.asarray(T, dtype=float))
+        from kawin.thermo.utils import _process_xT_arrays
+        x, T = _process_xT_arrays(np.asarray(x, dtype=float), np.asarray(T, dtype=float), True)     # same input handling as the real backend
+        x = x[:, 0]
         if self.faults.hit("drivingForce"):
             return None, None
         dg = self._pp(precPhase, "K") * (x - self.xe(T, precPhase))
         xb = self._pp(precPhase, "xb") * np.ones(dg.shape)
-        return dg, xb
+        return np.squeeze(dg), np.squeeze(xb)
 
     def getInterfacialComposition(self, T, gExtra=0, precPhase=None):
         g = np.asarray(gExtra, dtype=float)
         T = np.asarray(T, dtype=float)
+        if g.ndim > 0 or T.ndim > 0:
+            from kawin.thermo.utils import _process_TG_arrays
+            T, g = _process_TG_arrays(T, g)                                                               # same input handling as the real backend
+            if len(g) == 1 and np.ndim(gExtra) == 0:
+                g, T = g[0], T[0]
         self.log.append(("getInterfacialComposition", float(np.atleast_1d(T)[0])))
         if g.ndim > 0 and g.size > 1:
             self.lookupT.append((precPhase, float(np.atleast_1d(T)[0]), int(g.size)))
